@@ -54,6 +54,16 @@ class M(Model):
                 L[c] = False
         return L
 
+    # ---- plan bias ('solve' mode of the drivers)
+    def solve_action(self, s, r=0):
+        """First-fit colouring (smallest allowed colour); every fourth call takes the r-th allowed
+        colour instead, so that colourings with more colours are reached too."""
+        L = np.flatnonzero(self._legal(*self._arrays(s)))
+        if L.size == 0:
+            return None
+        r = int(r)
+        return np.asarray(L[0] if r % 4 else L[(r // 4) % L.size], np.int32)
+
     # ---- C04 / C05
     def legal(self, s):
         return self._legal(*self._arrays(s))
